@@ -487,8 +487,12 @@ fn sim_main(case: QCase) -> Obs {
     let sink = ScriptedSink { sh: sh.clone(), inner };
     let q = if case.via_builder || case.handler {
         let mut b = QueuingMetricSink::builder();
-        if let Some(c) = case.cap {
-            b = b.with_capacity(c);
+        // the order in which the builder's options are given must not matter
+        let handler_first = case.plan.len() % 2 == 1;
+        if !handler_first {
+            if let Some(c) = case.cap {
+                b = b.with_capacity(c);
+            }
         }
         if case.handler {
             let sh2 = sh.clone();
@@ -497,6 +501,11 @@ fn sim_main(case: QCase) -> Obs {
                 sh2.log.lock().unwrap().push(Ev::Handler { kind: kind_name(e.kind()), msg: e.to_string(), task });
                 kernel::event(|| format!("handler {e}"), &[0x73]);
             });
+        }
+        if handler_first {
+            if let Some(c) = case.cap {
+                b = b.with_capacity(c);
+            }
         }
         b.build(sink)
     } else {
